@@ -172,3 +172,32 @@ CHECKS["C12"] = {
     ],
     "assumptions": ["at most one OPT per message (RFC 6891)"],
 }
+
+CHECKS["C05"] = {
+    "title": "Multiplexed upstream replies reach exactly the exchange that asked",
+    "level": "exploration",
+    "level_text": "rapid state machine over the pipelined transport (datagram and stream flavours) on an in-memory connection whose schedule the harness owns: generated histories of start/cancel/reply-in-any-order/duplicate/unsolicited/late/close, invariants checked after every step, whole history shrinks; plus >65536-exchange roll-over runs with late replies placed around the ID boundary. Exploration of histories; not all interleavings of the goroutines inside the transport.",
+    "level_note": "A reply that is consumed but never handed to its waiter (stall) makes the run inconclusive, not a violation (outside the statement). Goroutine scheduling inside the transport between two harness steps is the OS's.",
+    "technique": "model-based stateful property testing (rapid state machine) with a harness-owned schedule; history invariants",
+    "parts": [
+        {"engine": "P", "pkg": "internal/upstream/transport", "tests": [
+            {"run": "TestVfC05Pipeline", "quick": 2400, "thorough": 160000, "shards_quick": 12, "shards_thorough": 16, "args": ["-rapid.steps", "50"], "timeout_thorough": 3400},
+            {"run": "TestVfC05Rollover", "quick": 2, "thorough": 32, "shards_quick": 2, "shards_thorough": 16},
+        ]},
+    ],
+    "assumptions": ["the server side is the harness's in-memory connection; dials always succeed (faults are C14's domain)"],
+}
+
+CHECKS["C06"] = {
+    "title": "One-at-a-time upstream connections are reused only when clean",
+    "level": "exploration",
+    "level_text": "rapid state machine over the non-pipelined (reuse) transport on an in-memory stream connection: explicit cancellations, replies sent whole/chunked/partially/aborted, server closes, idle-timer races; the fake server sends one unique reply per query and checks that it never sees a second query before it finished the previous reply, and every returned message is the reply to the exchange's own query. The TCP leg of UDP upstreams is the same transport. Exploration of histories.",
+    "level_note": "The idle-timer race uses small real sleeps around a 30 ms timeout; the oracle is pure safety, so either outcome of the race must satisfy it.",
+    "technique": "model-based stateful property testing (rapid state machine) with a harness-owned schedule; history invariants",
+    "parts": [
+        {"engine": "P", "pkg": "internal/upstream/transport", "tests": [
+            {"run": "TestVfC06Reuse", "quick": 2400, "thorough": 100000, "shards_quick": 16, "shards_thorough": 16, "args": ["-rapid.steps", "40"], "timeout_thorough": 3400},
+        ]},
+    ],
+    "assumptions": ["the fake server sends exactly one reply per query, echoing the query's ID"],
+}
